@@ -11,6 +11,31 @@ E3 = "exhaustive / preemption-bounded prange schedule enumeration on source-deri
 
 # id -> (built, category, technique, text, note, design_ref)
 CHECKS = {
+    "C02": (
+        True,
+        "exploration",
+        E1 + " + M2 independent unit algebra",
+        "Product of {+,-,*,/} x {Array-Array over 9 (quick) / 16 dtype pairs x 9 shape pairs incl. broadcasting x every ordered unit "
+        "pair within 7 families plus incompatible cross-family pairs x 2 value sets; Array with int/float/0-d/n-d ndarray/Quantity "
+        "(same, other, incompatible unit) on either side} and of {neg, ** k for k in 2,3,-1,0.5,0,1, k*a, 2.5*a, k/a} x 4 dtypes x 4 "
+        "shapes x all units. Expected physical value and dimension vector come from exact CGS scales in an independent table; "
+        "incompatible +/- must raise and leave both operands bit-identical.",
+        "Trusted: M2 unit table; pint only parses unit labels. Reversed operations that refuse are not flagged.",
+        "DESIGN.md §3 C02",
+    ),
+    "C10": (
+        True,
+        "exploration",
+        E1 + " + M2 independent unit algebra",
+        "Product of a fixed catalogue (39 unit-preserving unary forms incl. axis=/keepdims= keywords, 3 unary predicates, 8 "
+        "unit-transforming unary forms, 12 same-unit n-ary functions, 6 comparison ufuncs, 3 multiplicative ufuncs, 8 out=/where/clip "
+        "special forms) x unit assignments (same, compatible-different, incompatible, dimensionless) x second-operand kinds (Array, "
+        "Quantity, ndarray, number, ndarray first, Quantity first) x dtypes x shapes. Values must equal numpy on the physical values; "
+        "the unit must follow the function's class; operands carrying different units must be converted or refused, incompatible "
+        "ones refused.",
+        "Trusted: M2 unit table. Index-valued, var/prod and transcendental functions are outside the statement.",
+        "DESIGN.md §3 C10",
+    ),
     "C04": (
         True,
         "exploration",
